@@ -40,6 +40,147 @@ def all_funcs_of(ci):
     return out
 
 
+ACTIVE = "self._active_segment"
+
+
+def _is_none(v):
+    return isinstance(v, ast.Constant) and v.value is None
+
+
+def self_callee(fn, call):
+    """The same-class method called by `self.m(..)` inside fn (also from a nested function), else None."""
+    f = call.func
+    if fn.cls is not None and isinstance(f, ast.Attribute) and isinstance(f.value, ast.Name) and f.value.id == "self":
+        return fn.cls.lookup(f.attr)
+    return None
+
+
+def self_method_value(fn, e):
+    """The same-class method named by the bare value `self.m` (a method passed on, e.g. to eventually())."""
+    if fn.cls is not None and isinstance(e, ast.Attribute) and isinstance(e.value, ast.Name) and e.value.id == "self":
+        return fn.cls.lookup(e.attr)
+    return None
+
+
+class ActiveFetcher:
+    """Inter-procedural typestate of DownloadNode._active_segment over one method and the same-class methods it calls
+    (function summaries: state at entry -> set of states at the normal exit).
+
+    state = (stopped, phase).  stopped: the active SegmentFetcher has been retired (stopped, or it finished by itself).
+    phase 0: _active_segment may still be bound to it; 1: _active_segment was reset to None; 2: a method that installs
+    the next fetcher (_start_new_segment) ran after the reset."""
+
+    def __init__(self, idx, ci):
+        self.idx = idx
+        self.ci = ci
+        self._syms = {}
+        self._memo = {}
+        self.states = 0
+        self.starters = {m.qual for m in all_funcs_of(ci) if m.name != "__init__" and m.cfg().find(self.installs)}
+        if not self.starters:
+            raise AnchorVanished("no DownloadNode method installs a SegmentFetcher in _active_segment")
+
+    @staticmethod
+    def installs(n):
+        return ACTIVE in node_stores(n) and not _is_none(assign_value(n, ACTIVE))
+
+    def sym(self, fn):
+        if fn.qual not in self._syms:
+            self._syms[fn.qual] = Sym(self.idx, fn)
+        return self._syms[fn.qual]
+
+    def stop_calls(self, fn, n):
+        """(call, receiver normal form) of the x.stop() calls at node n that are not calls of a same-class method."""
+        out = []
+        for c in node_calls(n):
+            if call_tail(c) == "stop" and isinstance(c.func, ast.Attribute) and self_callee(fn, c) is None:
+                out.append((c, nf(self.sym(fn).expand(n, c.func.value))))
+        return out
+
+    def step(self, fn, n, st, stack):
+        cur = {st}
+
+        def started(states):
+            return {(s, 2 if p == 1 else p) for (s, p) in states}
+        for c in node_calls(n):
+            callee = self_callee(fn, c)
+            if callee is not None and callee.qual in self.starters:
+                cur = started(cur)
+            elif callee is not None and callee.qual not in stack:
+                nxt = set()
+                for s_ in cur:
+                    nxt |= self.outputs(callee, s_, stack)
+                cur = nxt
+            for a in list(c.args) + [k.value for k in c.keywords]:
+                m = self_method_value(fn, a)
+                if m is not None and m.qual in self.starters:
+                    cur = started(cur)        # scheduled: eventually(self._start_new_segment)
+        for (c, rv) in self.stop_calls(fn, n):
+            if rv == ACTIVE:
+                cur = {(True, p) for (_s, p) in cur}
+        if ACTIVE in node_stores(n):
+            ph = 1 if _is_none(assign_value(n, ACTIVE)) else 0
+            cur = {(s, ph) for (s, _p) in cur}
+        return cur
+
+    def run(self, fn, st0, stack=()):
+        """(visited product states, parent map) of fn started in st0; helpers are entered through their summaries."""
+        cfg = fn.cfg()
+        stack = tuple(stack) + (fn.qual,)
+        s0 = (cfg.entry.id, st0)
+        seen = {s0}
+        parent = {s0: None}
+        todo = [s0]
+        cache = {}
+        while todo:
+            cur = todo.pop(0)
+            nid, st = cur
+            n = cfg.nodes[nid]
+            for (d, lab) in cfg.succ[nid]:
+                if n.kind in ("entry", "exit", "raise") or lab == "exc":
+                    outs = {st}
+                else:
+                    if cur not in cache:
+                        cache[cur] = self.step(fn, n, st, stack)
+                    outs = cache[cur]
+                for ns in outs:
+                    nxt = (d, ns)
+                    if nxt not in seen:
+                        seen.add(nxt)
+                        parent[nxt] = (cur, lab)
+                        todo.append(nxt)
+        self.states += len(seen)
+        return seen, parent
+
+    def outputs(self, fn, st, stack=()):
+        key = (fn.qual, st)
+        if key not in self._memo:
+            seen, _p = self.run(fn, st, stack)
+            ex = fn.cfg().exit.id
+            self._memo[key] = {s for (nid, s) in seen if nid == ex}
+        return self._memo[key]
+
+    def may_stop(self, fn, n):
+        """Executing node n of fn (including the same-class methods it calls) can stop the active fetcher."""
+        if n.kind in ("entry", "exit", "raise"):
+            return False
+        return any(s for (s, _p) in self.step(fn, n, (False, 0), (fn.qual,)))
+
+    def reached_methods(self, fn):
+        """fn and the same-class methods it calls, transitively (the methods that install the next fetcher excluded)."""
+        out, todo = {}, [fn]
+        while todo:
+            g = todo.pop()
+            if g.qual in out:
+                continue
+            out[g.qual] = g
+            for c in calls_in_func(g):
+                h_ = self_callee(g, c)
+                if h_ is not None and h_.qual not in self.starters:
+                    todo.append(h_)
+        return list(out.values())
+
+
 def fresh_local(r, fn, ctor, what):
     """The constructor call of the per-read object in fn (exactly one) and its CFG node.  Whether the object that
     is *used* is the fresh one is decided by the caller through the reaching definition of the receiver."""
@@ -225,9 +366,12 @@ def run_cancel(ctx, r):
     r.require(cf is not None and cf[0] == (CI, "!=", cp[0]) and cf[1] == "whole", cr, cr.loc(fnode.ast),
               "cancel keeps %s: it must keep exactly the requests whose Cancel handle (tuple index %d) is not the "
               "cancelling one" % (src(cr, fnode.ast.value), CI))
-    stops = cfg.find(has_call("stop"))
+    # the statements of _cancel_request that can stop the active fetcher, directly or through a same-class helper
+    eff = ActiveFetcher(idx, idx.cls(NODE))
+    stops = [n for n in cfg.nodes if eff.may_stop(cr, n)]
     if not stops:
         raise AnchorVanished("_cancel_request no longer stops the active fetcher")
+    stop_ids = {n.id for n in stops}
     fnorm = FlowNorm(cr)
     r.site(cr, stops[0].ast, "stop only when the active segment is unwanted")
     segvars = {}
@@ -240,14 +384,16 @@ def run_cancel(ctx, r):
     def unwanted(n, lab):
         f = fnorm.edge_fact(n, lab)
         return bool(f) and f[0] == "not in" and f[1] == "self._active_segment.segnum" and f[2] in segvars
-    for (n, w) in find_path_avoiding(cfg, has_call("stop"), gate_edge=unwanted,
+    for (n, w) in find_path_avoiding(cfg, lambda q: q.id in stop_ids, gate_edge=unwanted,
                                      kill=lambda q: "self._segment_requests" in node_stores(q) and q is not fnode):
         r.violation(cr, cr.loc(n.ast), "cancelling one read stops the active fetcher although another request may still want "
                     "its segment (path: %s)" % w.brief(), w)
-    for n in stops:
-        for c in calls_at(n, "stop"):
-            rv = nf(crs.expand(n, c.func.value))
-            r.require(rv == "self._active_segment", cr, cr.loc(c), "cancel stops %s" % rv)
+    # nothing but the active fetcher is stopped, in _cancel_request or in the same-class methods it calls
+    for g in eff.reached_methods(cr):
+        for n in g.cfg().nodes:
+            for (c, rv) in eff.stop_calls(g, n):
+                r.require(rv == ACTIVE, g, g.loc(c), "cancelling one read stops %s%s" % (
+                    rv, "" if g is cr else " (in %s, called from _cancel_request)" % short(g)))
     for f in all_funcs_of(idx.cls(NODE)):
         nm = f.qual.split(":")[1]
         for n in f.cfg().nodes:
@@ -325,6 +471,283 @@ def run_cancel(ctx, r):
             r.require(f is sp_ and nf(c.func.value) == "self._cancel_segment_request", f, f.loc(c),
                       "%s cancels %s" % (short(f), nf(c.func.value)))
     r.require(bool(calls_in_func(sp_, "cancel")), sp_, sp_.loc(), "stopProducing no longer cancels the outstanding segment request")
+
+
+def run_outstanding(ctx, r):
+    """At most one segment request of a read is outstanding at any time (C04.7)."""
+    idx = ctx.idx
+    ci = idx.cls(SEG)
+    funcs = all_funcs_of(ci)
+    fetchers = [f for f in funcs if calls_in_func(f, "get_segment", into_lambda=True)]
+    if len(fetchers) != 1:
+        raise AnchorVanished("Segmentation: expected one method that calls get_segment, found %d" % len(fetchers))
+    F = fetchers[0]
+    gc = the_call(F, "get_segment")
+    gn = node_of(F, gc)
+    fs = Sym(idx, F)
+    fcfg = F.cfg()
+    handle = nf(fs.expand(gn, gc)) + "[1]"
+    r.site(F, gc, "one outstanding segment request per read")
+
+    # -- the record(s) of the outstanding request: self attributes that _fetch_next sets to a non-constant value.
+    #    'handle' is the Cancel object returned by get_segment (always truthy); anything else ('value', the segment
+    #    number) has the legitimate falsy value 0, so only a comparison with None tells 'nothing outstanding'.
+    kinds = {}
+    for n in fcfg.nodes:
+        for p in node_stores(n):
+            if not p.startswith("self.") or p.endswith("[]") or p.count(".") != 1:
+                continue
+            v = assign_value(n, p)
+            if v is None:
+                continue
+            ev = fs.expand(n, v)
+            if isinstance(ev, ast.Constant):
+                continue
+            kinds[p] = "handle" if nf(ev) == handle else "value"
+    if not kinds:
+        raise AnchorVanished("%s keeps no record of the outstanding segment request" % short(F))
+    cancel_cls = idx.cls("immutable.downloader.node:Cancel")
+    handle_truthy = cancel_cls.lookup("__bool__") is None and cancel_cls.lookup("__len__") is None
+
+    def is_reset(n, m):
+        return m in node_stores(n) and _is_none(assign_value(n, m))
+
+    def is_set(n, m):
+        return m in node_stores(n) and not _is_none(assign_value(n, m))
+
+    def resets_any(n):
+        return any(is_reset(n, m) for m in kinds)
+    used = set()
+    weak = {}
+    fnorms = {}
+
+    def gate_of(fn):
+        if fn.qual not in fnorms:
+            fnorms[fn.qual] = FlowNorm(fn)
+        fnorm = fnorms[fn.qual]
+
+        def g(n, lab):
+            f = fnorm.edge_fact(n, lab)
+            if not f:
+                return False
+            for m, k in kinds.items():
+                if f[0] in ("is", "==") and {f[1], f[2]} == {"None", m}:
+                    used.add(m)
+                    return True
+                if f[0] == "false" and f[1] == m:
+                    if k == "handle" and handle_truthy:
+                        used.add(m)
+                        return True
+                    weak.setdefault(fn.qual, (fn, n, m))
+            return False
+        return g
+
+    # -- the Deferred of the request and the callbacks registered on it: they run when the request has been retired
+    dname = None
+    if isinstance(gn.ast, ast.Assign) and len(gn.ast.targets) == 1 and isinstance(gn.ast.targets[0], (ast.Tuple, ast.List)) \
+            and gn.ast.value is gc and gn.ast.targets[0].elts and isinstance(gn.ast.targets[0].elts[0], ast.Name):
+        dname = gn.ast.targets[0].elts[0].id
+    if dname is None:
+        raise AnchorVanished("%s: cannot identify the Deferred returned by get_segment" % short(F))
+    regs = registrations(F, dname)
+    if not regs:
+        raise AnchorVanished("%s registers no callback on the segment Deferred" % short(F))
+    reg_nodes = set()
+    for reg in regs:
+        for t in (reg.target, reg.errtarget):
+            if t is not None:
+                reg_nodes |= {id(x) for x in ast.walk(t)}
+
+    def refs_to(target):
+        """[(g, cfg nodes of g)] where the method `target` is called or passed on as a value; the callbacks on the
+        segment Deferred are left out (they are decided by the retire rule below)."""
+        out = []
+        for g in funcs:
+            ns = []
+            for n in g.cfg().nodes:
+                hit = False
+                for e in node_exprs(n):
+                    for x in own_nodes(e, into_lambda=True):
+                        if id(x) in reg_nodes:
+                            continue
+                        if target.parent is None:
+                            hit = hit or (self_method_value(g, x) is target and isinstance(x.ctx, ast.Load))
+                        else:
+                            hit = hit or (isinstance(x, ast.Name) and x.id == target.name and isinstance(x.ctx, ast.Load)
+                                          and (g is target.parent or g.parent is target.parent))
+                if hit:
+                    ns.append(n)
+            if ns:
+                out.append((g, ns))
+        return out
+
+    # methods from which the get_segment call is reachable inside the class
+    reach = {F.qual: F}
+    grew = True
+    while grew:
+        grew = False
+        for g in funcs:
+            if g.qual in reach:
+                continue
+            for x in func_own_nodes(g, into_lambda=True):
+                m_ = self_method_value(g, x) if isinstance(x, ast.Attribute) else None
+                if m_ is not None and m_.qual in reach:
+                    reach[g.qual] = g
+                    grew = True
+                    break
+
+    # -- (a) every route from a method the consumer may call at any time to get_segment passes `record is None`.
+    #    start() is exempt: it runs once on the fresh object (C04.1), whose records __init__ sets to None.
+    rd = idx.func(NODE + ".read")
+    start_fn = ci.lookup(the_call(rd, "start").func.attr)
+    if start_fn is None:
+        raise AnchorVanished("DownloadNode.read starts the Segmentation with an unknown method")
+    bad_routes = []
+
+    def routes(fn, targets, chain, seen):
+        ws = find_path_avoiding(fn.cfg(), lambda q: q.id in targets, gate_node=resets_any, gate_edge=gate_of(fn))
+        r.count(len(fn.cfg().nodes))
+        if not ws or fn is start_fn:
+            return
+        if not fn.name.startswith("_"):
+            bad_routes.append((fn, chain, ws[0][1]))
+        for g, ns in refs_to(fn):
+            if g.qual not in seen:
+                routes(g, {n.id for n in ns}, [g] + chain, seen | {g.qual})
+    routes(F, {gn.id}, [F], {F.qual})
+    entries = [g for g in funcs if not g.name.startswith("_") and g is not start_fn and g.qual in reach
+               and any(h_.qual in reach for h_ in [g])]
+    for g in entries:
+        r.site(g, None, "reaches get_segment only when no request is outstanding")
+    reported = set()
+    for (entry, chain, w) in bad_routes:
+        how = " -> ".join(f.name for f in chain) + " -> get_segment"
+        culprit = next((weak[f.qual] for f in chain if f.qual in weak), None)
+        if culprit is not None:
+            cf, cn, cm = culprit
+            key, where, loc = cf.qual, cf, cf.loc(cn.ast)
+            msg = ("%s tests the record of the outstanding segment request (%s) by truthiness, but it holds a segment "
+                   "number and segment 0 is falsy: while segment 0 is being fetched %s() issues a second request for the "
+                   "same read (%s), whose delivery no longer matches the advanced offset" % (short(cf), cm, entry.name, how))
+        else:
+            key, where, loc = entry.qual, entry, entry.loc()
+            msg = ("%s() can ask the node for a segment (%s) without having seen that no request of this read is outstanding "
+                   "(%s is None): a pause/resume while a segment is being fetched issues a duplicate request and the read "
+                   "fails or delivers the wrong bytes" % (entry.name, how, " / ".join(sorted(kinds))))
+        if key not in reported:
+            reported.add(key)
+            r.violation(where, loc, msg, w)
+    init = ci.lookup("__init__")
+    for m in sorted(used):
+        r.require(init is not None and not find_path_avoiding(init.cfg(), lambda q: q.kind == "exit",
+                                                              gate_node=lambda q, _m=m: is_reset(q, _m)),
+                  init or F, (init or F).loc(), "a fresh Segmentation does not start with %s = None" % m)
+
+    # -- (b) _fetch_next records the request it makes
+    r.site(F, gc, "the request is recorded")
+    for m in sorted(used):
+        def transfer(n, lab, nxt, st, _m=m):
+            if lab == "exc" or n.kind in ("entry", "exit", "raise"):
+                return st
+            called, isset = st
+            if n is gn:
+                called = True
+            if is_reset(n, _m):
+                isset = False
+            elif is_set(n, _m):
+                isset = True
+            return (called, isset)
+        visited, parent = explore(fcfg, (False, False), transfer)
+        r.count(len(visited))
+        key = (fcfg.exit.id, (True, False))
+        if key in visited:
+            w = witness(fcfg, parent, key)
+            r.violation(F, F.loc(gc), "%s asks the node for a segment but can return with %s unset: the next resumeProducing() "
+                        "or retry issues a second request while this one is outstanding (path: %s)" % (short(F), m, w.brief()), w)
+
+    # -- (c) the request is retired (record reset to None) on both outcomes before a callback continues the read
+    def must_reset(g, m):
+        return not find_path_avoiding(g.cfg(), lambda q: q.kind == "exit", gate_node=lambda q: is_reset(q, m))
+
+    def resets_before_continuing(g, m):
+        ns = {n.id for n in g.cfg().nodes for e in node_exprs(n) for x in own_nodes(e, into_lambda=True)
+              if isinstance(x, ast.Attribute) and self_method_value(g, x) is not None and self_method_value(g, x).qual in reach}
+        return not find_path_avoiding(g.cfg(), lambda q: q.id in ns, gate_node=lambda q: is_reset(q, m))
+    flat = []
+    for reg in regs:
+        if reg.kind == "pair":
+            flat.append(({"cb"}, reg.target, reg))
+            if reg.errtarget is not None:
+                flat.append(({"eb"}, reg.errtarget, reg))
+        else:
+            flat.append(({"cb": {"cb"}, "eb": {"eb"}, "both": {"cb", "eb"}}[reg.kind], reg.target, reg))
+    cleared = {m: set() for m in used}
+    retire_fns = set()
+    continuing = 0
+    for (ch, t, reg) in flat:
+        g = self_method_value(F, t)
+        if g is None:
+            continue
+        retire_fns.add(g.qual)
+        if g.qual in reach:
+            continuing += 1
+            for m in sorted(used):
+                missing = sorted(c for c in ch if c not in cleared[m])
+                if missing and not resets_before_continuing(g, m):
+                    r.violation(F, F.loc(reg.call), "%s continues the read on the %s path of the segment Deferred while %s still "
+                                "marks the finished request as outstanding: the guard of the next fetch never passes and the read "
+                                "stalls" % (short(g), "/".join("success" if c == "cb" else "failure" for c in missing), m))
+        for m in used:
+            if must_reset(g, m):
+                cleared[m] |= ch
+    if not continuing:
+        raise AnchorVanished("%s: no callback on the segment Deferred continues the read" % short(F))
+    r.site(F, regs[0].call, "retired before the read continues")
+
+    # -- (d) the record is forgotten only when the request was retired (callbacks above) or cancelled first
+    r.site(ci.module.relpath + " class " + ci.name, None, "who may forget the outstanding request")
+
+    def cancels(q):
+        return any(call_tail(c) == "cancel" for c in node_calls(q))
+    for m in sorted(used):
+        for g in funcs:
+            if g.qual in retire_fns or g is init:
+                continue
+            for n in g.cfg().nodes:
+                if is_reset(n, m) and find_path_avoiding(g.cfg(), lambda q, _n=n: q is _n, gate_node=cancels):
+                    r.violation(g, g.loc(n.ast), "%s forgets the outstanding segment request (%s = None) although it was neither "
+                                "retired nor cancelled: the next resumeProducing() issues a duplicate request for the same read"
+                                % (short(g), m))
+
+
+def run_restart(ctx, r):
+    """Whoever retires the active fetcher of the shared node starts the next queued request (C04.8)."""
+    idx = ctx.idx
+    ci = idx.cls(NODE)
+    eff = ActiveFetcher(idx, ci)
+    cr = idx.func(NODE + "._cancel_request")
+    todo = [(cr, False, "cancelling a read")]
+    for f in all_funcs_of(ci):
+        if f is not cr and calls_in_func(f, "_extract_requests") and f.name != "_extract_requests":
+            todo.append((f, True, "delivering a segment (or its failure)"))
+    for (fn, stopped0, what) in todo:
+        cfg = fn.cfg()
+        seen, parent = eff.run(fn, (stopped0, 0))
+        r.count(len(seen))
+        if not any(st[0] for (_n, st) in seen):
+            raise AnchorVanished("%s no longer stops the active fetcher" % short(fn))
+        r.site(fn, None, "restart after retiring the active fetcher")
+        k0, k1 = (cfg.exit.id, (True, 0)), (cfg.exit.id, (True, 1))
+        if k0 in seen:
+            w = witness(cfg, parent, k0)
+            r.violation(fn, fn.loc(), "%s: %s can finish with _active_segment still bound to the retired SegmentFetcher: "
+                        "_start_new_segment() is then a no-op and the segment requests of the other reads on this node are "
+                        "never served (path: %s)" % (short(fn), what, w.brief()), w)
+        if k1 in seen:
+            w = witness(cfg, parent, k1)
+            r.violation(fn, fn.loc(), "%s: %s retires the active fetcher but can finish without _start_new_segment(): the "
+                        "requests other reads have queued for other segments are never started, so those reads never "
+                        "complete (path: %s)" % (short(fn), what, w.brief()), w)
 
 
 def run_clip(ctx, r):
@@ -558,3 +981,10 @@ def run(ctx: Context):
     with ctx.rule("C04.6", "R6", "LiteralFileNode.read sends data[offset:] when size is None, else data[offset:offset+size]",
                   expected=1) as r:
         run_literal(ctx, r)
+    with ctx.rule("C04.7", "R1/R3", "a read has at most one segment request outstanding: get_segment is reached only past "
+                  "`record is None`, the request is recorded, retired on both outcomes before the read continues, and "
+                  "forgotten by nobody else", expected=5) as r:
+        run_outstanding(ctx, r)
+    with ctx.rule("C04.8", "R1/E3", "whoever retires the node's active fetcher (cancel, delivery, failure) resets "
+                  "_active_segment and then starts the next queued request, so the other reads go on", expected=3) as r:
+        run_restart(ctx, r)
